@@ -47,7 +47,8 @@ def accepted_ends(day, ha, ma, hb, mb):
     acc = []
     if ha <= 12 and hb <= 12 and b + timedelta(hours=12) > a:
         acc.append(b + timedelta(hours=12))
-        if hb < ha:
+        if hb < ha and ha < 12:
+            # the property's own example: 9-5 means 09:00-17:00; from 12:xx either reading is sensible
             return a, acc
     acc.append(b + timedelta(days=1))
     return a, [x for x in acc if x > a and x - a <= timedelta(hours=24)]
